@@ -51,7 +51,7 @@ impl<'a> RunCtl<'a> {
             tr,
             cancel_at: None,
             time: TimePolicy::Frozen,
-            max_polls: 200_000,
+            max_polls: 6_000_000,
             on_pending: None,
             busy_repolls: 0,
             polls: 0,
